@@ -228,6 +228,37 @@ def handOutContexts (m : Mem) (t : Option Triple) : List Handle :=
 def handOutTriples (cur : List Quad) (p : Pat) : List (Triple × List Handle) :=
   (memTriples cur p).map (fun tc => (tc.1, tc.2.map (fun g => (g, Bound.wrapper))))
 
+/-- the reads of the public surface that hand a `Graph` object (or something holding one) to the caller -/
+inductive Source
+  | storeContexts     -- AuditableStore.contexts()
+  | storeTriples      -- the graphs AuditableStore.triples() yields with each triple
+  | cgContexts        -- ConjunctiveGraph.contexts(): `for context in self.store.contexts(triple): if isinstance(context, Graph): yield context`
+  | cgContextsOf      -- ConjunctiveGraph.contexts(triple), for every triple held
+  | cgQuads           -- the graph of each quad of ConjunctiveGraph.quads(): `for (s,p,o), cg in self.store.triples(…): for ctx in cg`
+  | getContext        -- get_context(name) / default_context / get_graph(name): `Graph(store=self.store, identifier=…)`, self.store = the wrapper
+  | resource          -- Graph.resource(node).graph : the graph it was asked of
+  | collection        -- Collection(graph, node).graph : the graph it was given
+  | nsManager         -- graph.namespace_manager.graph : the graph it belongs to
+  deriving DecidableEq, Repr
+
+def Source.all : List Source :=
+  [.storeContexts, .storeTriples, .cgContexts, .cgContextsOf, .cgQuads, .getContext, .resource, .collection, .nsManager]
+
+/-- graph-layer objects (`rdflib/graph.py`) are built on `self.store`, and the `store` of a graph over the wrapper is the wrapper -/
+def graphLayer (m : Mem) : List Handle := m.ctxs.map (fun g => (g, Bound.wrapper))
+
+/-- the `Graph` objects each read hands out -/
+def handOut (s : XW) : Source → List Handle
+  | .storeContexts => handOutContexts s.m none
+  | .storeTriples => (handOutTriples s.m.cur (none, none, none, none)).flatMap (·.2)
+  | .cgContexts => handOutContexts s.m none
+  | .cgContextsOf => (s.m.cur.map Quad.triple).flatMap (fun t => handOutContexts s.m (some t))
+  | .cgQuads => (handOutTriples s.m.cur (none, none, none, none)).flatMap (·.2)
+  | .getContext => graphLayer s.m
+  | .resource => graphLayer s.m
+  | .collection => graphLayer s.m
+  | .nsManager => graphLayer s.m
+
 /-- a write made through a `Graph` object: `Graph.add` / `Graph.remove` call `self.store.add / remove(…, context=self)` -/
 inductive HWrite
   | add (t : Triple)
